@@ -9,6 +9,11 @@ NOTE_L1 = ("Trusted: Lean kernel + axioms {propext, Classical.choice, Quot.sound
            "real HsmEventProcessor on generated charts, this seed); chart class = handlers that answer each "
            "signal with HANDLED / UNHANDLED / SUPER-to-parent / TRAN (DESIGN §5).")
 
+NOTE_CONC = ("Trusted: Lean kernel + axioms {propext, Classical.choice, Quot.sound}; the ast translator of the algorithm "
+             "tags; the deterministic scheduler dsched (GIL atomicity of each deque/Queue/Event/Lock primitive, no "
+             "preemption inside one) and the step-by-step schedule replay on this seed; queue.Queue / deque / "
+             "PriorityQueue semantics as modelled (DESIGN §5).")
+
 CHECKS = {
     # id: (technique, text, design_ref, note)
     "C02": ("Lean 4 proof by induction on the active path + model/impl call-trace correspondence",
@@ -58,6 +63,62 @@ CHECKS = {
             "on a full queue a fifo post keeps the new event last and a lifo post keeps it first. The "
             "LockingDeque half of the property (active objects) is decided by the concurrency layer.",
             "§8 C16", NOTE_L1 + " collections.deque(maxlen) semantics are modelled, not verified."),
+    "C04": ("Lean 4 inductive invariants over all schedules of a one-primitive-per-step thread model + schedule-replay correspondence with the real threads",
+            "Theorems over every schedule (List of thread ids), any number of posters, any finite fifo/lifo post lists, "
+            "any capacity: the credit invariant len(deque) <= tokens + in-flight credits, hence at quiescence the queue is "
+            "empty, every poster has returned and the consumer waits (no lost wake-up); bounds; no task_done/peek/pop "
+            "error; unique events are dispatched at most once and conservation (posted = pending + queued + dispatched "
+            "+ displaced); only the consumer thread dispatches; placement/pop steps refine an abstract deque. The model "
+            "(LockingDeque.append/appendleft/__signal + run_event/next_rtc, generated algorithm tag) is tied to the code "
+            "by replaying the schedule of real ActiveObject threads (deterministic scheduler) step by step.",
+            "§8 C04, App. A", NOTE_CONC),
+    "C05": ("Lean 4 termination proof by a strictly decreasing measure on every enabled step (all schedules) + schedule-replay correspondence",
+            "Theorems: a post in progress is always enabled (posting never waits for another thread); a closed-form bound "
+            "on the number of effective steps of EVERY schedule (no infinite execution exists, so no livelock, no fairness "
+            "needed), also with handler self-posts under a ranking hypothesis; every quiescent state is 'done' (all posts "
+            "returned, consumer waiting, queue empty) and every schedule extends to one; C05_witness_legacy: the earlier "
+            "`while qsize != len: put` loop has a reachable lasso. Measure validated by exhaustive exploration of 3.6M "
+            "states before the proof.", "§8 C05, App. A", NOTE_CONC),
+    "C07": ("Lean 4 proof over all configurations and registries of the subscribe/publish decision logic + exhaustive configuration run on real active objects",
+            "Theorems: for every configuration (instrumented or not, running or not, own thread or not) and every "
+            "registry content, after subscribe() has taken effect the object's queue is registered; publish() reaches the "
+            "fabric; meta events fall through to top. Witness theorems for the two repaired defects. Tie: all 216 "
+            "configurations (quick: sample of 48) run on real ActiveObjects under the deterministic scheduler.",
+            "§8 C07", NOTE_CONC),
+    "C06": ("Lean 4 proofs about registry, delivery and fabric-event uniqueness over all schedules + schedule-replay correspondence",
+            "Theorems: subscribe is idempotent, adds exactly the subscribing queue and never removes/duplicates others; the "
+            "registry is exactly the set of subscribers; a delivery adds the event exactly once to exactly the registered "
+            "queues; fabric events pending in a queue have distinct sequence numbers (processed at most once), each "
+            "publish creates one per kind. Tie: real fabric threads under the deterministic scheduler, per step.",
+            "§8 C06", NOTE_CONC),
+    "C08": ("Lean 4 proofs: PriorityQueue.get returns the (priority, sequence) minimum; draining is sorted",
+            "Theorems: minFE returns the least element in (priority, creation sequence) order; draining any queued content "
+            "yields a sorted permutation (however far delivery lags); sequence numbers follow publish order. Partial: heapq "
+            "is abstracted to 'returns the minimum for __lt__'.", "§8 C08", NOTE_CONC),
+    "C09": ("Lean 4 proof of placement per subscription kind + correspondence",
+            "Theorems: lifo delivery to an active object's queue puts the event at the front, fifo delivery at the back, "
+            "for every prior queue content (generated tag lifoDeliver); witness for the earlier code.", "§8 C09", NOTE_CONC),
+    "C13": ("Lean 4 invariant over all schedules and call sequences + schedule-replay correspondence",
+            "Theorems: at most one live delivery thread per kind in every reachable state for any client programs; "
+            "is_alive() reports exactly that both run; start keeps live threads and replaces dead ones; stop's joins "
+            "complete only when the threads have finished; witness for the earlier start().", "§8 C13", NOTE_CONC),
+    "C10": ("Lean 4 invariants over all schedules of the timer/clock model + schedule-replay correspondence with a virtual clock",
+            "Theorems: a source with times=n activates at most n times and has posted exactly n when finished (absent "
+            "cancellation); no posting is early and postings are at least a period apart; exact instants under lazy-clock "
+            "schedules; fifo/lifo placement; times=0 never stops by itself. Partial by nature: virtual time, real-clock "
+            "drift is not modelled.", "§8 C10", NOTE_CONC),
+    "C11": ("Lean 4 proofs: scan selects exactly the matching sources; lock invariant; silence after cancel for every continuation",
+            "Theorems: cancel_event/cancel_events select exactly the tracked sources with equal id / name (by value), "
+            "touch no other source; lock held iff posting; after the cancelling call returns the source never places "
+            "another event under any continuation schedule. Witnesses for the earlier code (identity comparison, "
+            "unlocked check-then-post).", "§8 C11", NOTE_CONC),
+    "C12": ("Lean 4 proofs on the AO system model + schedule-replay correspondence",
+            "Theorems: stop()'s join completes only when the consumer thread has finished; afterwards no step changes the "
+            "dispatch log; the run flag stays cleared; every tracked source is cancelled and silent. Partial: stop() "
+            "called from a handler is covered by the correspondence only.", "§8 C12", NOTE_CONC),
+    "C31": ("Lean 4 one-step and invariant proofs + schedule-replay correspondence",
+            "Theorems: a timed post at capacity creates no source (nothing can ever post for it) and returns the error "
+            "result; accepted sources are tracked; tracked count never exceeds the capacity.", "§8 C31", NOTE_CONC),
     "C22": ("Lean 4 proof by induction on the active path + call-trace correspondence + purity replay",
             "Theorems for every current state and argument: the faithful model of is_in returns true iff the "
             "argument is a suffix of (= is or encloses) the current path; child_state returns the spec's child, "
@@ -82,7 +143,9 @@ def main():
     checks, na = [], []
     for p in props:
         pid = p["id"]
-        if pid in CHECKS:
+        have_props = os.path.exists(os.path.join(VERIF, "lean", "MirosModel", "Props", pid + ".lean")) and \
+            os.path.exists(os.path.join(VERIF, "harness", "props", pid + ".py"))
+        if pid in CHECKS and have_props:
             tech, text, ref, note = CHECKS[pid]
             checks.append({
                 "property_id": pid,
